@@ -134,8 +134,9 @@ Definition h_mac_unmarshal (data : slice) : M hmac :=
   doM hs <- sl_subM data 0 (7 + ol);
   doM hd <- h_fhdr_unmarshal hs;
   doM port <- (if (7 + ol <? n)%Z then doM p <- sl_rd data (7 + ol); retM (Some p) else retM None);
+  (* if fPort == 0 && fOptsLen > 0 { return error }   inside the FPort-present branch (after fix 6878deb) *)
+  if (match port with Some 0 => true | _ => false end) && (0 <? ol)%Z then failM else
   if (7 + ol + 1 <? n)%Z then
-    if (match port with Some 0 => true | _ => false end) && (0 <? ol)%Z then failM else
     (* frmPayload := make([]byte, dataLen-(7+fOptsLen+1)); copy(frmPayload, data[7+fOptsLen+1:])
        p.FRMPayload = []Payload{&DataPayload{Bytes: frmPayload}}            (after fix b4e563a) *)
     doM s <- sl_subM data (7 + ol + 1) n;
